@@ -65,7 +65,7 @@ ASSUMPTIONS = [
     "a float literal with an integer value (f**3.0) is an integer power",
     "estimate_total_polynomial_degree may refuse (raise) on un-preprocessed compound operators; that is counted, not judged",
 ]
-BUDGET = {"quick": 60, "thorough": 420}
+BUDGET = {"quick": 45, "thorough": 420}
 CASE_TIMEOUT = 30.0
 EVAL_COUNTER = "events_judged"
 
@@ -151,14 +151,18 @@ def _in_quick(s):
 
 
 SWEEP = _build_sweep()
-NCASES = {"quick": (len(SWEEP["quick"]) * 4) // 3 + 64, "thorough": (len(SWEEP["thorough"]) * 4) // 3 + 20000}
-# a full quick run on a quiet machine observes about: events_judged 23000, sweep_cases_judged 3850, random_cases_judged 1520,
-# tight_events 16000, hetero_component_events 11000, cfd_events_judged 5600, attach_events_judged 5900 (floors ~35 %)
+NCASES = {"quick": (len(SWEEP["quick"]) * 4) // 3 + 64, "thorough": (len(SWEEP["thorough"]) * 4) // 3 + 12000}
+# A complete run on a quiet machine observes about
+#   quick:    events_judged 24000, sweep_cases_judged 3850, random_cases_judged 1520, tight_events 17000,
+#             hetero_component_events 11000, cfd_events_judged 6600, attach_events_judged 7000
+#   thorough: events_judged 170000, sweep_cases_judged 14600, random_cases_judged 17000, tight_events 125000,
+#             hetero_component_events 22500, cfd_events_judged 38000, attach_events_judged 49000
+# floors are about 30-35 % of that: what a run still reaches inside its time budget on a machine with load average 40
 FLOORS = {
-    "quick": {"events_judged": 8000, "sweep_cases_judged": 1350, "random_cases_judged": 520, "tight_events": 5600,
-              "hetero_component_events": 3800, "cfd_events_judged": 1900, "attach_events_judged": 2000},
-    "thorough": {"events_judged": 60000, "sweep_cases_judged": 5500, "random_cases_judged": 5000, "tight_events": 40000,
-                 "hetero_component_events": 12000, "cfd_events_judged": 15000, "attach_events_judged": 15000},
+    "quick": {"events_judged": 7000, "sweep_cases_judged": 1150, "random_cases_judged": 450, "tight_events": 5000,
+              "hetero_component_events": 3300, "cfd_events_judged": 1900, "attach_events_judged": 2000},
+    "thorough": {"events_judged": 60000, "sweep_cases_judged": 5100, "random_cases_judged": 4500, "tight_events": 44000,
+                 "hetero_component_events": 8000, "cfd_events_judged": 13000, "attach_events_judged": 17000},
 }
 COVER_FLOORS = {
     t: {
@@ -360,7 +364,7 @@ def judge_integrals(ctx, U, pieces, probes, info, opts):
     for sid, integrand, true in pieces:
         piece = integrand * U.measure(sid)
         form = piece if form is None else form + piece
-    # --- attach_estimated_degrees on the preprocessed form (integral k stays integral k)
+    # --- the preprocessed form: direct estimates of its integrands, then attach_estimated_degrees
     try:
         pf = preprocess_form(form, False)
     except Exception as ex:
@@ -404,10 +408,10 @@ def judge_integrals(ctx, U, pieces, probes, info, opts):
                 ctx.violation("C18/attach_estimated_degrees/no-integer-degree-attached", f"metadata {itg.metadata()!r}")
                 continue
             record(ctx, "attach_estimated_degrees", itg.integrand(), d, true, info)
-            if d < true and direct.get(k) is not None and direct[k] >= true:
+            if d < true and (direct.get(k) is None or direct[k] >= true):
                 ctx.violation(
                     "C18/attach_estimated_degrees/below-true-degree-although-direct-estimate-is-not",
-                    f"attached degree {d} < true degree {true}; estimate_total_polynomial_degree of the same integrand gives {direct[k]}",
+                    f"attached degree {d} < true degree {true}; estimate_total_polynomial_degree of the same integrand gives {direct.get(k)}",
                     dict(info, integrand=safe_str(itg.integrand(), 900), attached=d, true_degree=true, world=probes[0].describe()),
                 )
             elif d < true:
@@ -445,10 +449,10 @@ def judge_integrals(ctx, U, pieces, probes, info, opts):
                 continue
             record(ctx, "compute_form_data", integrand, d, true, info, classes=False)
             if d < true:
-                if direct.get(k) is not None and direct[k] >= true:
+                if direct.get(k) is None or direct[k] >= true:
                     ctx.violation(
                         "C18/compute_form_data/delivered-degree-below-true-degree-although-direct-estimate-is-not",
-                        f"delivered estimated_polynomial_degree {d} < true degree {true}; direct estimate of the preprocessed integrand {direct[k]}",
+                        f"delivered estimated_polynomial_degree {d} < true degree {true}; direct estimate of the preprocessed integrand {direct.get(k)}",
                         dict(info, options={a: b for a, b in opts.items()}, integrand=safe_str(integrand, 900), delivered=d, true_degree=true,
                              world=probes[0].describe()),
                     )
